@@ -129,6 +129,20 @@ def r11_2(ctx: Ctx):
                   key=f'{rid}::{drv.short}::loop-carried::{",".join(sorted(carried))}')
         # the loop bound
         it = lp.iter
+        # a local that merely names the batch size (iterations = number) is the batch size
+        renames = {}
+        for st in drv.node.body:
+            if isinstance(st, ast.Assign) and len(st.targets) == 1 and isinstance(st.targets[0], ast.Name) and \
+                    isinstance(st.value, ast.Name) and st.value.id in drv.param_names:
+                others = [n_ for n_ in ast.walk(drv.node) if isinstance(n_, ast.Name) and n_.id == st.targets[0].id
+                          and isinstance(n_.ctx, ast.Store)]
+                if len(others) == 1:
+                    renames[st.targets[0].id] = st.value.id
+        if isinstance(it, ast.Call) and len(it.args) == 1 and isinstance(it.args[0], ast.Name) and \
+                it.args[0].id in renames:
+            import copy as _copy
+            it = _copy.deepcopy(it)
+            it.args[0] = ast.Name(id=renames[lp.iter.args[0].id], ctx=ast.Load())
         okb = isinstance(it, ast.Call) and isinstance(it.func, ast.Name) and it.func.id == 'range' and \
             len(it.args) == 1 and isinstance(it.args[0], ast.Name) and it.args[0].id in drv.param_names
         ctx.check(okb, rid, drv.short, drv.loc(lp), 'the loop performs exactly `number` trips',
@@ -136,8 +150,12 @@ def r11_2(ctx: Ctx):
                   key=f'{rid}::{drv.short}::range-number')
         if okb:
             pn = it.args[0].id
-            uses = [n for n in ast.walk(drv.node) if isinstance(n, ast.Name) and n.id == pn and
-                    isinstance(n.ctx, ast.Load) and n is not it.args[0]]
+            names = {pn} | {a_ for a_, src in renames.items() if src == pn}
+            alias_rhs = {id(st.value) for st in drv.node.body if isinstance(st, ast.Assign) and len(st.targets) == 1
+                         and isinstance(st.targets[0], ast.Name) and st.targets[0].id in renames}
+            uses = [n for n in ast.walk(drv.node) if isinstance(n, ast.Name) and n.id in names and
+                    isinstance(n.ctx, ast.Load) and n is not it.args[0] and n is not lp.iter.args[0]
+                    and id(n) not in alias_rhs]
             ctx.check(not uses, rid, drv.short, drv.loc(), 'the batch size is used only as the loop bound',
                       f'the batch size {pn} is also used at line(s) {sorted({u.lineno for u in uses})}: the work done '
                       f'per trip depends on how iterations are batched', key=f'{rid}::{drv.short}::number-used')
